@@ -305,6 +305,140 @@ static int replay_C01(const Args& a)
    return fails;
 }
 
+// ---- C07: scopes, overload sets and declaration sets
+static int replay_C07(const Args&)
+{
+   impl::Lexicon lex; impl::Translation_unit unit { lex };
+   impl::Region* r = unit.global_region()->make_subregion();
+   const Type& i = lex.int_type(); const Type& c = lex.char_type();
+   auto& x = lex.get_identifier(u8"x"); auto& y = lex.get_identifier(u8"y"); auto& z = lex.get_identifier(u8"z");
+   auto* x1 = r->declare_var(x, i); auto* y1 = r->declare_var(y, i); auto* x2 = r->declare_var(x, c); auto* x3 = r->declare_var(x, i);
+   const Scope& s = r->bindings();
+   CLAUSE(s.elements().size() == 4 && &*s.elements().position(0) == x1 && &*s.elements().position(1) == y1 && &*s.elements().position(2) == x2 && &*s.elements().position(3) == x3, "the scope lists every declaration in entry order");
+   const Product* tp = dynamic_cast<const Product*>(&s.type());
+   if (tp == nullptr) { CLAUSE(false, "the scope's type is a product"); return fails; }
+   const Product& t = *tp;
+   CLAUSE(t.size() == 4 && &t[0] == &i && &t[1] == &i && &t[2] == &c && &t[3] == &i, "the scope's type is the product of the declarations' types in order");
+   CLAUSE(s[x].is_valid() && s[y].is_valid() && !s[z].is_valid(), "looking a name up yields an overload set exactly when the name was declared");
+   if (s[x].is_valid()) {
+      const Overload& o = s[x].get();
+      CLAUSE(o[i].is_valid() && &o[i].get() == x1 && o[c].is_valid() && &o[c].get() == x2, "selecting by type yields the first declaration entered with that name and type");
+   }
+   bool masters = false, sets = false;
+   try { masters = &x1->master() == x1 && &x3->master() == x1 && &x2->master() == x2 && &y1->master() == y1; } catch (const std::logic_error&) { }
+   CLAUSE(masters, "each declaration's master is the first declaration with its name and type");
+   try { sets = x1->decl_set().size() == 2 && &*x1->decl_set().position(0) == x1 && &*x1->decl_set().position(1) == x3 && &x3->decl_set() == &x1->decl_set() && x2->decl_set().size() == 1 && y1->decl_set().size() == 1; } catch (const std::logic_error&) { }
+   CLAUSE(sets, "a declaration-set is exactly the declarations sharing name and type, in entry order");
+   CLAUSE(&x3->name() == &x && &x3->type() == &i && &x2->type() == &c, "declarations report their name and type");
+   return fails;
+}
+
+// ---- C06: category, accept and visitor defaults (native sweep over nodes reachable through the public API)
+namespace {
+   struct Sink : ipr::Visitor {          // only the seven pure sinks: records which abstract super-category a node ends in
+      const char* hit = ""; const Node* who = nullptr; int calls = 0;
+      void visit(const Node& n) override { hit = "Node"; who = &n; ++calls; }
+      void visit(const Expr& n) override { hit = "Expr"; who = &n; ++calls; }
+      void visit(const Name& n) override { hit = "Name"; who = &n; ++calls; }
+      void visit(const Type& n) override { hit = "Type"; who = &n; ++calls; }
+      void visit(const Directive& n) override { hit = "Directive"; who = &n; ++calls; }
+      void visit(const Stmt& n) override { hit = "Stmt"; who = &n; ++calls; }
+      void visit(const Decl& n) override { hit = "Decl"; who = &n; ++calls; }
+   };
+   void sink_is(const Node& n, const char* want, Category_code c, const char* what)
+   {
+      Sink v; n.accept(v);
+      bool ok = v.calls == 1 && v.who == &n && std::string(v.hit) == want && n.category == c;
+      if (!ok) { std::cout << "REPLAY-FAIL: " << what << ": category/accept/default chain ends in " << v.hit << " (calls " << v.calls << "), expected " << want << "\n"; ++fails; }
+      else std::cout << "replay-ok: " << what << " -> " << want << "\n";
+   }
+}
+static int replay_C06(const Args&)
+{
+   impl::Lexicon lex; impl::Translation_unit unit { lex };
+   impl::Region* r = unit.global_region();
+   const Type& i = lex.int_type();
+   auto& x = lex.get_identifier(u8"x");
+   impl::Mapping* m = lex.make_mapping(*r, Mapping_level{1});
+   auto* p = m->param(x, i);
+   sink_is(m->parameters(), "Expr", Category_code::Parameter_list, "a parameter list is an expression");
+   sink_is(*p, "Decl", Category_code::Parameter, "a parameter is a declaration");
+   sink_is(*m, "Expr", Category_code::Mapping, "a mapping is an expression");
+   sink_is(x, "Name", Category_code::Identifier, "an identifier is a name");
+   sink_is(lex.get_pointer(i), "Type", Category_code::Pointer, "a pointer type is a type");
+   sink_is(*lex.make_plus(*lex.make_literal(i, u8"1"), *lex.make_literal(i, u8"2")), "Expr", Category_code::Plus, "a sum is a classic expression");
+   sink_is(*r, "Node", Category_code::Region, "a region is a node");
+   sink_is(*lex.make_break(), "Stmt", Category_code::Break, "break is a statement");
+   sink_is(*r->declare_var(x, i), "Decl", Category_code::Var, "a variable is a declaration");
+   sink_is(r->bindings(), "Expr", Category_code::Scope, "a scope is an expression");
+   return fails;
+}
+
+// ---- C12: regions form a tree; owners and positions
+static int replay_C12(const Args&)
+{
+   impl::Lexicon lex; impl::Translation_unit unit { lex };
+   impl::Region* g = unit.global_region();
+   const Type& i = lex.int_type(); auto& x = lex.get_identifier(u8"x"); auto& e = lex.get_identifier(u8"e");
+   CLAUSE(g->global() && !g->owner().is_valid() == false, "the unit's root region is global and owned by the global namespace");
+   impl::Region* sub = g->make_subregion();
+   CLAUSE(&sub->enclosing() == g && !sub->global(), "a subregion is enclosed by the region it was made in and is not global");
+   impl::Block* b = lex.make_block(*sub);
+   CLAUSE(&b->region().enclosing() == sub && b->region().owner().is_valid() && &b->region().owner().get() == b, "a block's region is enclosed by the region given and owned by the block");
+   impl::Handler* h = b->new_handler(e, i);
+   const Region& body = h->body().region();
+   CLAUSE(body.owner().is_valid() && &body.owner().get() == &h->body(), "a handler body's region is owned by that block");
+   const Region& ehr = body.enclosing();
+   CLAUSE(ehr.bindings().size() == 1 && &*ehr.bindings().elements().position(0) == &h->exception() && &ehr.enclosing() == &b->region().enclosing(), "a handler's body is enclosed by a region binding exactly its exception parameter, itself enclosed by the region enclosing the guarded block");
+   impl::Mapping* m = lex.make_mapping(*sub, Mapping_level{2});
+   auto* p0 = m->param(x, i); auto* p1 = m->param(e, i);
+   CLAUSE(m->parameters().region().owner().is_valid() && &m->parameters().region().owner().get() == m && &m->parameters().region().enclosing() == sub, "a mapping owns its parameter region, enclosed by the region given");
+   CLAUSE(p0->position() == Decl_position{0} && p1->position() == Decl_position{1} && &p1->home_region() == &m->parameters().region(), "parameters report their zero-based position and home region");
+   const Namespace& gns = unit.global_namespace();
+   CLAUSE(gns.name().category == Category_code::Identifier && &gns.type() == &lex.namespace_type(), "the global namespace is typed `namespace`");
+   int steps = 0; const Region* w = &body; while (!w->global() && steps < 100) { w = &w->enclosing(); ++steps; }
+   CLAUSE(w == g, "walking outward reaches the unit's global region");
+   return fails;
+}
+
+// ---- C18: printing terminates and leaves the stream and the printer as it found them
+#include <sys/resource.h>
+static int replay_C18(const Args& a)
+{
+   impl::Lexicon lex; impl::Translation_unit unit { lex };
+   const Type& i = lex.int_type();
+   bool sel = a.count("only") == 0;
+   auto want = [&](const char* n) { return sel || a.at("only") == n; };
+   auto print = [&](const Expr& e, std::string& out, std::ios_base::fmtflags& fl, int& ind) {
+      std::ostringstream os; Printer pp { lex, os }; auto f0 = os.flags(); auto i0 = pp.indent();
+      try { pp << xpr_expr(e); } catch (const std::logic_error&) { }
+      out = os.str(); fl = os.flags() ^ f0; ind = pp.indent() - i0; };
+   std::string out; std::ios_base::fmtflags fl; int ind;
+   if (want("literal")) {
+      const char8_t bytes[] = { u8'a', 1, u8'b', 2, 3, 0 };
+      print(*lex.make_literal(i, bytes), out, fl, ind);
+      CLAUSE(fl == std::ios_base::fmtflags{}, "printing a literal with control bytes leaves the stream's formatting flags untouched");
+      std::ostringstream os; Printer pp { lex, os }; pp << xpr_expr(*lex.make_literal(i, bytes)); pp << Decl_position{10};
+      CLAUSE(os.str().size() >= 2 && os.str().substr(os.str().size() - 2) == "10", "a number written after such a literal is decimal");
+   }
+   if (want("enclosure")) {
+      for (auto d : { Delimiter::Nothing, Delimiter::Paren, Delimiter::Brace, Delimiter::Bracket, Delimiter::Angle }) {
+         print(*lex.make_enclosure(d, *lex.make_literal(i, u8"1")), out, fl, ind);
+         bool ctl = false; for (unsigned char ch : out) if (ch < 0x20 && ch != '\n') ctl = true;
+         CLAUSE(!ctl, "an enclosure writes no NUL or other control byte");
+      }
+   }
+   if (want("unsupported")) {
+      struct rlimit rl { 8u << 20, 8u << 20 }; setrlimit(RLIMIT_STACK, &rl);
+      auto* one = lex.make_literal(i, u8"1");
+      const Expr* es[] = { lex.make_alignof(*one), lex.make_demotion(*one, i), lex.make_materialization(*one, i), lex.make_rewrite(*one, *one), lex.make_eclipsis(i),
+                           lex.make_restriction(*one), lex.make_binary_fold(Category_code::Plus, *one, *one), lex.make_where(*one, *one), lex.make_requires(*unit.global_region(), Mapping_level{1}),
+                           lex.make_lambda(*unit.global_region(), Mapping_level{1}) };
+      for (auto* e : es) { print(*e, out, fl, ind); CLAUSE(true, "printing an unsupported expression kind completes or raises std::logic_error"); }
+   }
+   return fails;
+}
+
 int main(int argc, char** argv)
 {
    if (argc < 2) return 3;
@@ -319,6 +453,10 @@ int main(int argc, char** argv)
       else if (f == "C15") n = replay_C15(a);
       else if (f == "C11") n = replay_C11(a);
       else if (f == "C01" || f == "C04") n = replay_C01(a);
+      else if (f == "C07") n = replay_C07(a);
+      else if (f == "C06") n = replay_C06(a);
+      else if (f == "C18") n = replay_C18(a);
+      else if (f == "C12") n = replay_C12(a);
       else { std::cerr << "unknown replay family " << f << "\n"; return 3; }
    } catch (const std::exception& e) { std::cout << "REPLAY-EXCEPTION: " << e.what() << "\n"; return 4; }
    return n > 0 ? 1 : 0;
